@@ -290,6 +290,12 @@ fn c05_scenarios(thorough: bool) -> Vec<Scenario> {
         let f = if wexp == 3 { 1 } else { 2 };
         v.push(mk(&format!("env_{}_f{f}", env.map_or("unset".to_string(), |e| format!("'{e}'"))), 0, env, wexp, data(f), 5, false, pb));
     }
+    // the detected parallelism (intercepted `available_parallelism`) decides when nothing else is set
+    for (par, f) in [(1usize, 2usize), (3, 1)] {
+        let mut s = mk(&format!("parallelism{par}_f{f}"), 0, None, par, data(f), 4, false, pb);
+        s.parallelism = par;
+        v.push(s);
+    }
     // a source that does not fill on its end-of-input read (the hashing thread then stops only on request)
     let mut s = mk("cfg_w2_f2_nofill_at_end", 2, None, 2, data(2), 0, false, pb);
     s.fill_at_end = false;
